@@ -1188,7 +1188,32 @@ class Prov:
             elif isinstance(base, Src) and isinstance(k, int):
                 env.attrs[base.path + (('idx', k),)] = v
 
+    @staticmethod
+    def _is_simple_flag(e):
+        """a boolean combination that tests at least one side-effect-freeness predicate (`x.is_name and not x.is_temp`, `not items[0].is_simple()`)"""
+        if not isinstance(e, (ast.BoolOp, ast.UnaryOp, ast.Attribute, ast.Call)):
+            return False
+        if isinstance(e, ast.UnaryOp) and not isinstance(e.op, ast.Not):
+            return False
+        if isinstance(e, ast.BoolOp):
+            return all(isinstance(v, (ast.BoolOp, ast.UnaryOp, ast.Attribute, ast.Call, ast.Name, ast.Compare)) for v in e.values) and \
+                any(Prov._is_simple_flag(v) for v in e.values)
+        if isinstance(e, ast.UnaryOp):
+            return Prov._is_simple_flag(e.operand)
+        if isinstance(e, ast.Attribute):
+            return e.attr in SIMPLE_ATTRS
+        return isinstance(e.func, ast.Attribute) and e.func.attr in SIMPLE_PREDICATES and not e.args
+
     def stmt(self, s, env):
+        if isinstance(s, ast.Assign) and len(s.targets) == 1 and isinstance(s.targets[0], ast.Name) and self._is_simple_flag(s.value):
+            # flag = obj.is_name and not obj.is_temp: the test is made HERE, on the operands as they are bound now; the paths split on its outcome and the
+            # flag is a constant on each of them (a later `if not flag:` then carries the same facts as the test written in place)
+            outs = []
+            for truth, e2 in self.branch(s.value, env):
+                e2 = e2.copy() if e2 is env else e2
+                e2.vars[s.targets[0].id] = ('const', bool(truth))
+                outs.append(e2)
+            return outs
         if isinstance(s, ast.Assign):
             v = self.ev(s.value, env)
             for t in s.targets:
